@@ -28,14 +28,20 @@ Mro == [int |-> <<"int", "object">>, bool |-> <<"bool", "int", "object">>,
 
 SeqToSet(s) == {s[x] : x \in DOMAIN s}
 
-(* nominal subclassing *)
-IsSub(c, d) == c \in DOMAIN Mro /\ d \in SeqToSet(Mro[c])
+(* nominal subclassing in a hierarchy H (class name |-> MRO as a sequence of class names);       *)
+(* a class H does not know is only a subclass of itself and of object                             *)
+IsSubH(H, c, d) ==
+  \/ c = d \/ d = "object"
+  \/ c \in DOMAIN H /\ d \in SeqToSet(H[c])
 
 (* PEP 484 numeric promotions on top of nominal subclassing: int -> float -> complex *)
-IsSubP(c, d) ==
-  \/ IsSub(c, d)
-  \/ d = "float" /\ IsSub(c, "int")
-  \/ d = "complex" /\ (IsSub(c, "int") \/ IsSub(c, "float"))
+IsSubPH(H, c, d) ==
+  \/ IsSubH(H, c, d)
+  \/ d = "float" /\ IsSubH(H, c, "int")
+  \/ d = "complex" /\ (IsSubH(H, c, "int") \/ IsSubH(H, c, "float"))
+
+IsSub(c, d) == c \in DOMAIN Mro /\ IsSubH(Mro, c, d)
+IsSubP(c, d) == IsSubPH(Mro, c, d)
 
 VStr == <<"str", <<>>>>
 VInt == <<"int", <<>>>>
@@ -50,9 +56,15 @@ IterElems(v) ==
 
 IsIterable(v) == v[1] \in {"list", "tuple", "set", "frozenset", "dict", "str", "bytes"}
 IsSequence(v) == v[1] \in {"list", "tuple", "str", "bytes"}
+KnownShape(v) == v[1] \in {"list", "tuple", "set", "frozenset", "dict", "str", "bytes", "int",
+                           "bool", "float", "complex", "NoneType", "$class", "$fn"}
 
-(* AdmitsD(t, v, D): membership of value v in type t under a set D of DOCUMENTED DEVIATIONS of   *)
-(* pytype's matcher from PEP 484 (D = {} is the meaning the properties refer to):                *)
+(* AdmitsG(H, S, t, v, D): membership of value v in type t.                                        *)
+(*   H  class hierarchy (see IsSubH)                                                               *)
+(*   S  soundness reading (C01, C06): protocol types admit values whose shape the value grammar   *)
+(*      does not describe (never an alarm about something the spec does not understand)           *)
+(*   D  set of DOCUMENTED DEVIATIONS of pytype's matcher from PEP 484 (D = {} is the meaning the  *)
+(*      properties refer to):                                                                      *)
 (*   "hetero"   a list/set/frozenset/dict literal with >= 2 elements is accepted when SOME        *)
 (*              element (resp. key, value) is admitted (the matcher's leniency for multi-binding  *)
 (*              type parameters) instead of ALL                                                   *)
@@ -63,37 +75,46 @@ IsSequence(v) == v[1] \in {"list", "tuple", "str", "bytes"}
 ElemsOK(P(_), es, lenient) ==
   IF lenient /\ Len(es) >= 2 THEN \E k \in DOMAIN es : P(es[k]) ELSE \A k \in DOMAIN es : P(es[k])
 
-RECURSIVE AdmitsD(_, _, _)
-AdmitsD(t, v, D) ==
+RECURSIVE AdmitsG(_, _, _, _, _)
+AdmitsG(H, S, t, v, D) ==
   LET len == "hetero" \in D /\ v[1] \in {"list", "set", "frozenset", "dict"}
-      A1(e) == AdmitsD(t[3][1], e, D)
-      K1(p) == AdmitsD(t[3][1], p[1], D)
-      V2(p) == AdmitsD(t[3][2], p[2], D) IN
+      A1(e) == AdmitsG(H, S, t[3][1], e, D)
+      K1(p) == AdmitsG(H, S, t[3][1], p[1], D)
+      V2(p) == AdmitsG(H, S, t[3][2], p[2], D) IN
   CASE t[1] = "any" -> TRUE
+    [] t[1] = "nothing" -> FALSE
     [] t[1] = "cls" ->
-         IF v[1] \in {"$class", "$fn"} THEN t[2] = "object"
-         ELSE IsSubP(v[1], t[2]) \/ ("nonebool" \in D /\ t[2] = "bool" /\ v[1] = "NoneType")
-    [] t[1] = "union" -> \E k \in DOMAIN t[3] : AdmitsD(t[3][k], v, D)
+         IF v[1] = "$class" THEN t[2] \in {"object", "type"}
+         ELSE IF v[1] = "$fn" THEN t[2] \in {"object", "function", "Callable"}
+         ELSE IsSubPH(H, v[1], t[2]) \/ ("nonebool" \in D /\ t[2] = "bool" /\ v[1] = "NoneType")
+    [] t[1] = "union" -> \E k \in DOMAIN t[3] : AdmitsG(H, S, t[3][k], v, D)
     [] t[1] = "gen" ->
          CASE t[2] \in {"list", "set", "frozenset"} -> v[1] = t[2] /\ ElemsOK(A1, v[2], len)
            [] t[2] = "tuplevar" -> v[1] = "tuple" /\ ElemsOK(A1, v[2], FALSE)
-           [] t[2] \in {"dict", "Mapping"} ->
+           [] t[2] = "dict" ->
                 v[1] = "dict" /\ ElemsOK(K1, v[2], len) /\ ElemsOK(V2, v[2], len)
+           [] t[2] = "Mapping" ->
+                \/ S /\ ~KnownShape(v)
+                \/ v[1] = "dict" /\ ElemsOK(K1, v[2], len) /\ ElemsOK(V2, v[2], len)
            [] t[2] = "Sequence" ->
-                /\ IsSequence(v) /\ ElemsOK(A1, IterElems(v), len)
-                /\ ~("strseq" \in D /\ v[1] = "str" /\ t[3][1] = <<"cls", "str", <<>>>>)
+                \/ S /\ ~KnownShape(v)
+                \/ /\ IsSequence(v) /\ ElemsOK(A1, IterElems(v), len)
+                   /\ ~("strseq" \in D /\ v[1] = "str" /\ t[3][1] = <<"cls", "str", <<>>>>)
            [] t[2] = "Iterable" ->
-                /\ IsIterable(v) /\ ElemsOK(A1, IterElems(v), len)
-                /\ ~("strseq" \in D /\ v[1] = "str" /\ t[3][1] = <<"cls", "str", <<>>>>)
+                \/ S /\ ~KnownShape(v)
+                \/ /\ IsIterable(v) /\ ElemsOK(A1, IterElems(v), len)
+                   /\ ~("strseq" \in D /\ v[1] = "str" /\ t[3][1] = <<"cls", "str", <<>>>>)
            [] OTHER -> TRUE
     [] t[1] = "tuple" ->
-         v[1] = "tuple" /\ Len(v[2]) = Len(t[3]) /\ \A k \in DOMAIN t[3] : AdmitsD(t[3][k], v[2][k], D)
+         v[1] = "tuple" /\ Len(v[2]) = Len(t[3])
+         /\ \A k \in DOMAIN t[3] : AdmitsG(H, S, t[3][k], v[2][k], D)
     [] t[1] = "type" ->
-         v[1] = "$class" /\ (t[3][1][1] = "any" \/ IsSub(v[2][1][1], t[3][1][2]))
-    [] t[1] = "callable" -> v[1] \in {"$fn", "$class"}
+         v[1] = "$class" /\ (t[3][1][1] # "cls" \/ IsSubH(H, v[2][1][1], t[3][1][2]))
+    [] t[1] = "callable" -> v[1] \in {"$fn", "$class"} \/ (S /\ ~KnownShape(v))
     [] OTHER -> TRUE          \* forms outside the language admit everything (never an alarm)
 
-Admits(t, v) == AdmitsD(t, v, {})
+AdmitsD(t, v, D) == AdmitsG(Mro, FALSE, t, v, D)
+Admits(t, v) == AdmitsG(Mro, FALSE, t, v, {})
 
 (* forms the exactness reading (C02) understands *)
 RECURSIVE Understood(_)
